@@ -84,6 +84,16 @@ def w_solver_pool(ctx, rng, idx):
         r = step('evp.power_method', evp.power_method, A, gm, repeats=3, sigma=0.3)
         if r is not None:
             new.append(r[1])
+        # generalised problems: the right-hand operator is a tensor-train argument as well (over-parameterised on purpose: A + 0*A)
+        with probe.oracle():
+            B = A + 0.0 * A
+        pool.add(B, 'init#B')
+        r = step('evp.als', evp.als, H, go, operator_gevp=B, repeats=1, solver='eigh')
+        if r is not None:
+            new.append(r[1])
+        r = step('evp.power_method', evp.power_method, H, gm, operator_gevp=B, repeats=2, sigma=0.3)
+        if r is not None:
+            new.append(r[1])
     elif kind == 2:
         with probe.oracle():
             Hs = (0.3 / max(H.norm(), 1e-12)) * H
@@ -95,6 +105,13 @@ def w_solver_pool(ctx, rng, idx):
                                    ('ode.hod', ode.hod, (Hs, gm, 0.1, 2), dict(previous_value=b, normalize=0, progress=False, max_rank=1))):
             if 'previous_value' in kw:
                 pool.add(kw['previous_value'], 'init#prev')
+            if name == 'ode.hod' and rng.random() < 0.6:
+                # a caller-supplied series operator, hand-assembled (hence rank-redundant) - with the default and with a coarse threshold
+                with probe.oracle():
+                    kw['op_hod'] = 0.1 * Hs + 0.1 * Hs
+                pool.add(kw['op_hod'], 'init#op_hod')
+                if rng.random() < 0.5:
+                    kw['threshold'] = 1e-4
             r = step(name, fn, *args, **kw)
             if r is not None:
                 ctx.check(name, 'initial_state_heads_trajectory_by_identity', r[0] is args[1], prop=P)
